@@ -136,7 +136,7 @@ def build_sysstep():
 
 def theorems_of(lean_file):
     """(namespace-qualified) theorem names declared in a Props file."""
-    txt = open(lean_file).read()
+    txt = strip_comments(open(lean_file).read())     # the words `namespace X` / `theorem X` also occur in doc comments
     ns = []
     names = []
     for line in txt.splitlines():
